@@ -329,10 +329,8 @@ def multi_routine_histories(ctx):
     for _ in range(ctx.pick(25, 300)):
         n = rng.choice([2, 2, 3])
         roles = [rng.random() < 0.4 for _ in range(n)]          # True: acc-routine role
-        # acc-routine-role routines hold no RETURN / code block: ACCLoopTrans does not exclude them and an orphaned
-        # `acc loop` around a RETURN is a further defect (see NOTES.md) outside the modelled transformation set
-        plain = [loop1, nest2, (L(S), S), (L(L(S), S),)]
-        skels = tuple(rng.choice(plain if roles[k] else plain + [spec.gen_skeleton(rng, 2)]) for k in range(n))
+        plain = [loop1, nest2, (L(S), S), (L(L(S), S),), (L(S, ("R",)),)]
+        skels = tuple(rng.choice(plain + [spec.gen_skeleton(rng, 2)]) for k in range(n))
         cur = [tuple(sk) for sk in skels]
         ops = []
         for _ in range(rng.randint(2, ctx.pick(4, 6))):
